@@ -737,3 +737,39 @@ func edgeAtom(e Edge) Atom {
 	}
 	return Atom{}
 }
+
+// ------------------------------------------------------------------ C17.R9
+// The capacity the receive path enforces (C17.R1) is the channel descriptor's. FillDefaults may replace
+// a capacity only when it was left unset (zero): a configured bound that is silently replaced by the
+// (much larger) default lets a peer make the node buffer more than the operator allowed.
+func init() {
+	register("C17", "R9", "K1", "channel descriptor defaults replace a capacity or priority only when it is unset (zero)", 3, func(c *Ctx) {
+		w := c.W
+		f := c.fn("p2p/conn", "ChannelDescriptor.FillDefaults")
+		if f == nil {
+			return
+		}
+		fk := funcKey(f)
+		n := 0
+		for _, di := range w.deepInstrs(f, 1) {
+			st, ok := di.in.(*ssa.Store)
+			if !ok {
+				continue
+			}
+			fa, ok := st.Addr.(*ssa.FieldAddr)
+			if !ok {
+				continue
+			}
+			if nt := derefNamed(fa.X.Type()); nt == nil || nt.Obj().Name() != "ChannelDescriptor" {
+				continue
+			}
+			if _, isC := constInt(st.Val); !isC {
+				continue
+			}
+			n++
+			fld := fieldName(fa.X.Type(), fa.Field)
+			c.guards(st.Parent(), st, fk+" :: default for "+fld, 0, guardCmp("the field is unset", `\w+\.`+fld, "==", "0"))
+		}
+		c.Check(n >= 3, fk+" :: default substitutions found", w.pos(f.Pos()), ">= 3", fmt.Sprintf("%d", n))
+	})
+}
